@@ -263,3 +263,67 @@ func ZZ_ES() {
 		}
 	}
 }
+
+// ZZ_C12_Threads: the event stream as the engine runs it - a real process with
+// its real Inbox and worker goroutines - with G goroutines that each subscribe
+// their own (recording) subscriber, broadcast two events, unsubscribe and
+// broadcast a third. Schedules are explored up to the preemption bound. Oracle
+// per goroutine: its own first two events reach its own subscriber exactly
+// once and in broadcast order (they are broadcast after the Subscribe and
+// before the Unsubscribe in program order), its third event never does;
+// events of the other goroutine arrive at most once each and in that
+// goroutine's broadcast order.
+func ZZ_C12_Threads() {
+	G := zzrt.Param("G")
+	e := &Engine{address: LocalLookupAddr}
+	e.Registry = newRegistry(e)
+	e.eventStream = e.Spawn(newEventStream(), "eventstream", WithInboxSize(2))
+	zzrt.Quiesce()
+	subs := make([]*ZZRecProc, G)
+	for i := range subs {
+		subs[i] = &ZZRecProc{Pid: NewPID(e.address, "sub"+pidSeparator+string(rune('0'+i)))}
+		e.Registry.lookup[subs[i].Pid.ID] = subs[i]
+	}
+	for g := 0; g < G; g++ {
+		g := g
+		zzrt.Go(func() {
+			e.Subscribe(subs[g].Pid)
+			e.BroadcastEvent(zzEvt{g*10 + 1})
+			e.BroadcastEvent(zzEvt{g*10 + 2})
+			e.Unsubscribe(NewPID(subs[g].Pid.Address, subs[g].Pid.ID)) // by value
+			e.BroadcastEvent(zzEvt{g*10 + 3})
+		})
+	}
+	zzrt.Quiesce()
+	for g := 0; g < G; g++ {
+		last := make([]int, G)
+		for _, got := range subs[g].Got {
+			ev, ok := got.Msg.(zzEvt)
+			if !ok {
+				continue
+			}
+			from, k := ev.N/10, ev.N%10
+			if from < 0 || from >= G {
+				zzrt.Fail("C12:foreign-event")
+			}
+			if k <= last[from] {
+				zzrt.Fail("C12:event-delivered-twice-or-out-of-order")
+			}
+			last[from] = k
+			if from == g && k == 3 {
+				zzrt.Fail("C12:event-delivered-after-unsubscribe")
+			}
+		}
+		zzrt.Assert(last[g] == 2, "C12:event-not-delivered-to-subscriber")
+		n := 0
+		for _, got := range subs[g].Got {
+			if ev, ok := got.Msg.(zzEvt); ok && ev.N/10 == g {
+				n++
+			}
+		}
+		zzrt.Assert(n == 2, "C12:event-not-delivered-exactly-once")
+		if len(subs[g].Got) > 2 {
+			zzrt.Reach("saw-events-of-the-other-broadcaster")
+		}
+	}
+}
